@@ -20,16 +20,16 @@ const mod = "github.com/gabriel-vasile/mimetype"
 type kind int
 
 const (
-	kUnknown kind = iota
-	kStable       // same on x and any extension y
-	kGrow         // integer, non-decreasing as the header grows
-	kExt          // slice: y's value is an extension of x's (same start)
-	kSOF          // int: stable once found (>= 0), may turn from -1 to >= 0
-	kU            // bool: may turn false -> true
-	kD            // bool: may turn true -> false
-	kTop          // anything
-	kCutBefore    // slice: first result of Cut on a growing input: stable once the separator was found
-	kCutAfter     // slice: second result of Cut on a growing input: an extension once the separator was found
+	kUnknown   kind = iota
+	kStable         // same on x and any extension y
+	kGrow           // integer, non-decreasing as the header grows
+	kExt            // slice: y's value is an extension of x's (same start)
+	kSOF            // int: stable once found (>= 0), may turn from -1 to >= 0
+	kU              // bool: may turn false -> true
+	kD              // bool: may turn true -> false
+	kTop            // anything
+	kCutBefore      // slice: first result of Cut on a growing input: stable once the separator was found
+	kCutAfter       // slice: second result of Cut on a growing input: an extension once the separator was found
 )
 
 func (k kind) String() string {
